@@ -109,7 +109,7 @@ fn step_new(c: usize) {
   assert!(r.capacity() == c); // capacity() is the requested value, not the physical buffer
   assert!(r.len() == 0 && r.is_empty() && !r.is_full());
   kani::cover!(r.buf.len() >= c);
-  kani::cover!(true);
+  kani::cover!(true, "END");
 }
 
 fn step_push(cap: usize) {
@@ -144,7 +144,7 @@ fn step_push(cap: usize) {
       kani::cover!(true);
     }
   }
-  kani::cover!(true);
+  kani::cover!(true, "END");
 }
 
 fn step_pop(cap: usize) {
@@ -173,7 +173,7 @@ fn step_pop(cap: usize) {
       kani::cover!(true);
     }
   }
-  kani::cover!(true);
+  kani::cover!(true, "END");
 }
 
 fn step_observers(cap: usize) {
@@ -191,7 +191,7 @@ fn step_observers(cap: usize) {
   assert!(m == n && same_prefix(&old, &new, n));
   kani::cover!(n == cap);
   kani::cover!(n == 0);
-  kani::cover!(true);
+  kani::cover!(true, "END");
 }
 
 fn any_ring_d(cap: usize) -> (Ring<D>, usize) {
@@ -242,7 +242,7 @@ fn step_drop_once(cap: usize) {
   }
   kani::cover!(op == 0 && len == cap);
   kani::cover!(op == 2 && len == cap);
-  kani::cover!(true);
+  kani::cover!(true, "END");
 }
 
 // @obligation id=spsc.ring.new.cap1 props=C01,C03 kind=step tier=quick bound="logical capacity 1 (physical 2); head any usize (wrap included); caches any legal staleness; "
@@ -370,7 +370,7 @@ fn step_write_batch(cap: usize) {
   kani::cover!(k == 0 && xlen > 0 && limit > 0); // full
   kani::cover!(k > 0 && k < xlen && k < limit || cap == 1); // partial because of space
   kani::cover!(k == xlen && xlen == 3 || cap < 3);
-  kani::cover!(true);
+  kani::cover!(true, "END");
 }
 
 /// read_batch(out, max): appends the first k = min(max, len) items in order, view' = view[k..].
@@ -398,7 +398,7 @@ fn step_read_batch(cap: usize) {
   kani::cover!(k == 0 && n > 0);
   kani::cover!((k > 0 && k < n) || cap == 1);
   kani::cover!(k == n && n == cap);
-  kani::cover!(true);
+  kani::cover!(true, "END");
 }
 
 // @obligation id=spsc.shared.write_batch.cap1 props=C01,C02,C03 kind=step tier=quick bound="logical capacity 1; head any usize; input <= 3 items, limit any usize; no waiter registered"
